@@ -367,6 +367,15 @@ def verify_contract(contract, world, path_limit=4000, pool=None):
 def discharge(obligations, timeout=10, both=False):
     texts = [o.text for o in obligations]
     results = solve.solve_many(texts, timeout=timeout, both=both)
+    # an obligation left open in the first pass (solver budget exhausted, e.g. on a loaded machine) is tried once more,
+    # few at a time and with six times the budget, so that verdicts do not flip with the load; `unknown` stays undecided
+    again = [i for i, (o, r) in enumerate(zip(obligations, results))
+             if r['verdict'] == 'unknown' and (o.meta or {}).get('kind') != 'unsupported-path']
+    if again and len(again) <= 40:
+        second = solve.solve_many([texts[i] for i in again], timeout=6 * timeout, both=both, workers=4)
+        for i, r in zip(again, second):
+            if r['verdict'] != 'unknown':
+                results[i] = r
     for o, r in zip(obligations, results):
         o.verdict, o.by, o.model = r['verdict'], r['by'], r['model']
         if (o.meta or {}).get('kind') == 'unsupported-path' and o.verdict != 'unsat':
